@@ -400,7 +400,7 @@ func main() {
 var plainNames = []string{"a", "b", "c", "d", "e", "g"}
 
 // naming modes of a flat parameter list of length n
-var flatModes = []string{"named", "blank-some", "blank-all", "unnamed", "one-f", "prefix-clash", "prefix-mix", "prefix-plain", "gen-names", "blank-f", "common-names"}
+var flatModes = []string{"named", "blank-some", "blank-all", "unnamed", "one-f", "prefix-clash", "prefix-mix", "prefix-plain", "gen-names", "blank-f", "common-names", "f-chain", "prefix-underscore"}
 
 func nameParams(r *hx.Rand, mode string, n int) []string {
 	ns := make([]string, n)
@@ -481,6 +481,29 @@ func nameParams(r *hx.Rand, mode string, n int) []string {
 		j := (k + 1 + r.Intn(n-1)) % n
 		ns[k] = "_"
 		ns[j] = "f"
+	case "f-chain":
+		// f, f_, f__ ...: the wrapper's own parameter has to skip all of them (derive.UnusedName)
+		k := 1 + r.Intn(n)
+		perm := make([]int, n)
+		for i := range perm {
+			perm[i] = i
+		}
+		hx.Shuffle(r, perm)
+		for i := 0; i < k; i++ {
+			ns[perm[i]] = "f" + strings.Repeat("_", i)
+		}
+	case "prefix-underscore":
+		// `_` at index k and other parameters called param_k_ / param_k__: names the renaming makes up
+		// when param_k is taken; every name that carries the prefix is renamed to its own index
+		k := r.Intn(n)
+		ns[k] = "_"
+		u := 1
+		for i := range ns {
+			if i != k && r.Intn(2) == 0 {
+				ns[i] = fmt.Sprintf("param_%d%s", k, strings.Repeat("_", u))
+				u++
+			}
+		}
 	case "common-names":
 		// identifiers a generator is likely to pick for a name of its own (the bound value of apply,
 		// a temporary, the returned closure): a wrapper that starts using one of them is shadowed by a
@@ -509,6 +532,17 @@ func typeParams(r *hx.Rand, kind string, n int) []int {
 	return cs
 }
 
+// shift appends suffix to every name that is f followed by underscores (f -> f_, f_ -> f__): for signatures whose
+// result is called f
+func shift(names []string, suffix string) []string {
+	for i, n := range names {
+		if strings.HasPrefix(n, "f") && strings.Trim(n, "_") == "f" {
+			names[i] = n + suffix
+		}
+	}
+	return names
+}
+
 func mkParams(names []string, cs []int) []param {
 	ps := make([]param, len(names))
 	for i := range ps {
@@ -533,6 +567,72 @@ func mkResults(r *hx.Rand, n int, named string) []param {
 			rs[i].name = fmt.Sprintf("r%d", i)
 		}
 		rs[r.Intn(n)].name = "f"
+	}
+	if strings.HasPrefix(named, "as:") && n > 0 {
+		// named results r0.., one of them with the given name
+		for i := range rs {
+			rs[i].name = fmt.Sprintf("r%d", i)
+		}
+		rs[r.Intn(n)].name = strings.TrimPrefix(named, "as:")
+	}
+	if strings.HasPrefix(named, "seq:") {
+		// results called <prefix>0, <prefix>1, ...: the names the renaming of blank parameters makes up
+		for i := range rs {
+			rs[i].name = fmt.Sprintf("%s%d", strings.TrimPrefix(named, "seq:"), i)
+		}
+	}
+	return rs
+}
+
+// pickNames draws n names for one parameter or result list from a pool: either no name at all (one time in
+// six, if allowed) or names of which those that can be referred to are pairwise distinct and not in avoid
+// (`_` may repeat). The pool contains `_`, so the loop ends.
+func pickNames(r *hx.Rand, n int, pool []string, avoid map[string]bool, unnamedOK bool) []string {
+	out := make([]string, 0, n)
+	if unnamedOK && r.Intn(6) == 0 {
+		for len(out) < n {
+			out = append(out, "")
+		}
+		return out
+	}
+	used := map[string]bool{}
+	for len(out) < n {
+		c := pool[r.Intn(len(pool))]
+		if c != "_" && (used[c] || avoid[c]) {
+			continue
+		}
+		used[c] = true
+		out = append(out, c)
+	}
+	return out
+}
+
+func nameSet(l ...[]string) map[string]bool {
+	m := map[string]bool{}
+	for _, ns := range l {
+		for _, n := range ns {
+			m[n] = true
+		}
+	}
+	return m
+}
+
+// pools of the "combo" shapes: every cause of a renaming (blank, unnamed, the wrapper's own name and the names it
+// falls back to, the names the renaming makes up and falls back to, a name of the other level) can meet every other
+var (
+	comboParams  = []string{"a", "b", "c", "d", "e", "_", "_", "f", "f_", "f__", "param_0", "param_1", "param_0_", "param_2", "param_1_"}
+	comboOuter   = []string{"a", "b", "_", "_", "f", "f_", "param_0", "param_0_", "innerParam_0", "innerParam_1"}
+	comboInner   = []string{"a", "b", "c", "d", "_", "_", "f", "f_", "param_0", "param_0_", "param_0__", "innerParam_0", "innerParam_1", "innerParam_0_"}
+	comboResults = []string{"r0", "r1", "a", "b", "f", "f_", "f__", "param_0", "param_0_", "param_1", "innerParam_0", "innerParam_1", "_"}
+)
+
+func comboResultList(r *hx.Rand, avoid map[string]bool) []param {
+	n := r.Intn(4)
+	rs := mkResults(r, n, "")
+	if n > 0 && r.Intn(3) != 0 {
+		for i, name := range pickNames(r, n, comboResults, avoid, false) {
+			rs[i].name = name
+		}
 	}
 	return rs
 }
@@ -614,6 +714,47 @@ var uncurryModes = []uncurryMode{
 		ns[r.Intn(n)] = "param_0"
 		return ns
 	}},
+	{"both-f", fixedNames("f"), func(r *hx.Rand, n int) []string {
+		ns := innerPlain(r, n)
+		ns[r.Intn(n)] = "f"
+		if n >= 2 {
+			j := r.Intn(n)
+			if ns[j] != "f" {
+				ns[j] = "f_"
+			}
+		}
+		return ns
+	}},
+	{"dup-param-chain", fixedNames("param_0"), func(r *hx.Rand, n int) []string {
+		// the outer parameter clashes and so does the first name made up for it
+		ns := innerPlain(r, n)
+		ns[0] = "param_0"
+		if n >= 2 {
+			ns[1] = "param_0_"
+		}
+		if n >= 3 {
+			ns[2] = "_"
+		}
+		return ns
+	}},
+	{"unnamed-outer-dup-param", allOf(""), func(r *hx.Rand, n int) []string {
+		ns := innerPlain(r, n)
+		ns[r.Intn(n)] = "param_0"
+		return ns
+	}},
+	{"dup-levels-blank", fixedNames("b"), func(r *hx.Rand, n int) []string {
+		// the inner list is renamed (it has a blank) and still has the outer name
+		ns := innerPlain(r, n)
+		if n >= 2 {
+			for i := range ns {
+				ns[i] = fmt.Sprintf("q%d", i)
+			}
+			k := r.Intn(n)
+			ns[k] = "_"
+			ns[(k+1)%n] = "b"
+		}
+		return ns
+	}},
 }
 
 func genShapes(r *hx.Rand, tier string) []*shape {
@@ -646,11 +787,38 @@ func genShapes(r *hx.Rand, tier string) []*shape {
 			add(&shape{plugin: plugin, mode: "results-named", outer: mkParams(nameParams(r, "named", n), typeParams(r, "mixed", n)), results: mkResults(r, 2, "named")})
 			add(&shape{plugin: plugin, mode: "results-blank", outer: mkParams(nameParams(r, "blank-some", n), typeParams(r, "mixed", n)), results: mkResults(r, 2, "blank")})
 			add(&shape{plugin: plugin, mode: "results-f", outer: mkParams(nameParams(r, "named", n), typeParams(r, "mixed", n)), results: mkResults(r, 2, "f")})
+			// a result called f and parameters f_, f__: the wrapper's own parameter is f___ or so
+			add(&shape{plugin: plugin, mode: "results-f-chain", outer: mkParams(shift(nameParams(r, "f-chain", n), "_"), typeParams(r, "mixed", n)), results: mkResults(r, 1+r.Intn(3), "f")})
+			// results called param_0, param_1, ...: the names made up for blank / unnamed parameters must avoid them
+			add(&shape{plugin: plugin, mode: "results-prefix", outer: mkParams(nameParams(r, "blank-some", n), typeParams(r, "mixed", n)), results: mkResults(r, 1+r.Intn(3), "seq:param_")})
+			add(&shape{plugin: plugin, mode: "results-prefix-unnamed", outer: mkParams(nameParams(r, "unnamed", n), typeParams(r, "uniform", n)), results: mkResults(r, n, "seq:param_")})
+			add(&shape{plugin: plugin, mode: "results-prefix-underscore", outer: mkParams(nameParams(r, "blank-all", n), typeParams(r, "uniform", n)), results: mkResults(r, 2, "as:param_0_")})
 			// variadic signatures are outside the property; flip with two parameters and apply make
 			// goderive itself crash (types.NewSignature panics: a C09 matter), so only these
 			if plugin == "curry" || (plugin == "flip" && n >= 3) {
 				add(&shape{plugin: plugin, mode: "variadic", outer: mkParams(nameParams(r, "named", n), typeParams(r, "mixed", n)), results: mkResults(r, 1, ""), variadic: true})
 			}
+		}
+	}
+	// combinations: parameter and result names drawn independently from pools of all troublesome names
+	ncombo := 6
+	if tier == "thorough" {
+		ncombo = 30
+	}
+	for _, plugin := range []string{"curry", "flip", "apply", "rt"} {
+		for n := 2; n <= maxN; n++ {
+			for k := 0; k < ncombo; k++ {
+				ps := pickNames(r, n, comboParams, nil, true)
+				add(&shape{plugin: plugin, mode: "combo", outer: mkParams(ps, typeParams(r, typeKinds[k%2], n)), results: comboResultList(r, nameSet(ps))})
+			}
+		}
+	}
+	for nin := 1; nin <= maxN-1; nin++ {
+		for k := 0; k < 3*ncombo; k++ {
+			in := pickNames(r, nin, comboInner, nil, true)
+			out := pickNames(r, 1, comboOuter, nil, true)
+			cs := typeParams(r, typeKinds[k%2], 1+nin)
+			add(&shape{plugin: "uncurry", mode: "combo", outer: mkParams(out, cs[:1]), inner: mkParams(in, cs[1:]), results: comboResultList(r, nameSet(in))})
 		}
 	}
 	// apply also accepts a single parameter (outside the 2..5 of the property, inside the model)
@@ -666,9 +834,21 @@ func genShapes(r *hx.Rand, tier string) []*shape {
 			}
 		}
 		add(&shape{plugin: "uncurry", mode: "results-named", outer: mkParams([]string{"a"}, []int{0}), inner: mkParams(innerPlain(r, nin), typeParams(r, "mixed", nin)), results: mkResults(r, 2, "named")})
+		// the outer parameter has the name of an inner result; a result has the name the renaming makes up for the
+		// outer / an inner parameter; a result is called f
+		for _, tk := range typeKinds[:2] {
+			cs := typeParams(r, tk, 1+nin)
+			add(&shape{plugin: "uncurry", mode: "outer-is-result", outer: mkParams([]string{"a"}, cs[:1]), inner: mkParams(innerPlain(r, nin), cs[1:]), results: mkResults(r, 1+r.Intn(3), "as:a")})
+			cs = typeParams(r, tk, 1+nin)
+			add(&shape{plugin: "uncurry", mode: "result-param0", outer: mkParams([]string{[]string{"_", ""}[r.Intn(2)]}, cs[:1]), inner: mkParams(innerPlain(r, nin), cs[1:]), results: mkResults(r, 1+r.Intn(3), "as:param_0")})
+			cs = typeParams(r, tk, 1+nin)
+			add(&shape{plugin: "uncurry", mode: "result-innerParam", outer: mkParams([]string{"a"}, cs[:1]), inner: mkParams(allOf([]string{"_", ""}[r.Intn(2)])(r, nin), cs[1:]), results: mkResults(r, nin, "seq:innerParam_")})
+			cs = typeParams(r, tk, 1+nin)
+			add(&shape{plugin: "uncurry", mode: "result-f", outer: mkParams([]string{[]string{"a", "f_", "f__"}[r.Intn(3)]}, cs[:1]), inner: mkParams(innerPlain(r, nin), cs[1:]), results: mkResults(r, 1+r.Intn(3), "f")})
+		}
 	}
 	for n := 2; n <= maxN; n++ {
-		for _, mode := range []string{"named", "blank-some", "blank-all", "unnamed", "prefix-clash", "gen-names"} {
+		for _, mode := range []string{"named", "blank-some", "blank-all", "unnamed", "prefix-clash", "gen-names", "one-f", "blank-f", "f-chain", "prefix-underscore"} {
 			for nres := 0; nres <= 3; nres++ {
 				add(&shape{plugin: "rt", mode: mode, outer: mkParams(nameParams(r, mode, n), typeParams(r, typeKinds[nres%2], n)), results: mkResults(r, nres, "")})
 			}
